@@ -2,6 +2,7 @@ package ssaq
 
 import (
 	"fmt"
+	"go/constant"
 	"go/token"
 	"go/types"
 	"sort"
@@ -23,7 +24,7 @@ func Fingerprint(f *ssa.Function) ([]string, error) {
 	if f == nil || len(f.Blocks) == 0 {
 		return nil, fmt.Errorf("no body")
 	}
-	fp := &fingerprinter{f: f}
+	fp := &fingerprinter{f: f, spill: map[*ssa.Alloc]ssa.Value{}}
 	var lines []string
 	var walk func(b *ssa.BasicBlock, pred *ssa.BasicBlock, conds []string, effects []string, visited map[*ssa.BasicBlock]bool) error
 	walk = func(b *ssa.BasicBlock, pred *ssa.BasicBlock, conds []string, effects []string, visited map[*ssa.BasicBlock]bool) error {
@@ -36,6 +37,12 @@ func Fingerprint(f *ssa.Function) ([]string, error) {
 		for _, in := range b.Instrs {
 			switch x := in.(type) {
 			case *ssa.Store:
+				if _, isParam := x.Val.(*ssa.Parameter); isParam {
+					if al, ok := x.Addr.(*ssa.Alloc); ok && al.Comment == x.Val.Name() {
+						fp.spill[al] = x.Val
+						continue // spilled parameter
+					}
+				}
 				effects = append(effects, fmt.Sprintf("%s = %s", fp.addr(x.Addr), fp.expr(x.Val)))
 			case *ssa.MapUpdate:
 				effects = append(effects, fmt.Sprintf("%s[%s] = %s", fp.expr(x.Map), fp.expr(x.Key), fp.expr(x.Value)))
@@ -100,12 +107,19 @@ func sortedCopy(s []string) []string {
 }
 
 type fingerprinter struct {
-	f    *ssa.Function
-	pred map[*ssa.BasicBlock]*ssa.BasicBlock
+	short bool
+	f     *ssa.Function
+	pred  map[*ssa.BasicBlock]*ssa.BasicBlock
+	spill map[*ssa.Alloc]ssa.Value
 }
 
 func typeName(t types.Type) string {
-	return types.TypeString(t, func(p *types.Package) string { return p.Name() })
+	return types.TypeString(t, func(p *types.Package) string {
+		if p.Path() == "capnproto.org/go/capnp/v3" {
+			return ""
+		}
+		return p.Name()
+	})
 }
 
 // cond renders a branch condition with the given truth as a list of conjuncts.
@@ -174,6 +188,9 @@ func (fp *fingerprinter) addr(v ssa.Value) string {
 	case *ssa.IndexAddr:
 		return fp.addrBase(x.X) + "[" + fp.expr(x.Index) + "]"
 	case *ssa.Alloc:
+		if pv, ok := fp.spill[x]; ok {
+			return fp.expr(pv)
+		}
 		if x.Comment != "" {
 			return x.Comment
 		}
@@ -184,6 +201,9 @@ func (fp *fingerprinter) addr(v ssa.Value) string {
 func (fp *fingerprinter) addrBase(v ssa.Value) string {
 	switch x := v.(type) {
 	case *ssa.Alloc:
+		if pv, ok := fp.spill[x]; ok {
+			return fp.expr(pv)
+		}
 		if x.Comment != "" {
 			return x.Comment
 		}
@@ -200,6 +220,11 @@ func (fp *fingerprinter) expr(v ssa.Value) string {
 	case nil:
 		return "<nil>"
 	case *ssa.Parameter:
+		for i, p := range fp.f.Params {
+			if p == x {
+				return fmt.Sprintf("p%d", i)
+			}
+		}
 		return x.Name()
 	case *ssa.FreeVar:
 		return x.Name()
@@ -211,7 +236,13 @@ func (fp *fingerprinter) expr(v ssa.Value) string {
 		return x.Name()
 	case *ssa.Const:
 		if x.Value == nil {
+			if _, isStruct := x.Type().Underlying().(*types.Struct); isStruct {
+				return "zero:" + typeName(x.Type())
+			}
 			return "nil"
+		}
+		if x.Value.Kind() == constant.String {
+			return "<str>"
 		}
 		return x.Value.ExactString() + ":" + typeName(x.Type())
 	case *ssa.BinOp:
@@ -285,7 +316,13 @@ func (fp *fingerprinter) expr(v ssa.Value) string {
 			return fmt.Sprintf("%s.%s(%s)", fp.expr(x.Call.Value), x.Call.Method.Name(), strings.Join(args, ", "))
 		}
 		if f := x.Call.StaticCallee(); f != nil {
-			return fmt.Sprintf("%s(%s)", FuncName(f), strings.Join(args, ", "))
+			name := FuncName(f)
+			if fp.short {
+				if i := strings.LastIndex(name, "."); i >= 0 {
+					name = name[i+1:]
+				}
+			}
+			return fmt.Sprintf("%s(%s)", name, strings.Join(args, ", "))
 		}
 		return fmt.Sprintf("%s(%s)", fp.expr(x.Call.Value), strings.Join(args, ", "))
 	case *ssa.TypeAssert:
@@ -300,4 +337,86 @@ func (fp *fingerprinter) expr(v ssa.Value) string {
 		return "closure(" + fp.expr(x.Fn) + ")"
 	}
 	return fmt.Sprintf("%T", v)
+}
+
+// DomAtoms renders, in fingerprint normal form, the branch conditions that
+// dominate instruction in (the conjunction on its dominator chain).
+func DomAtoms(in ssa.Instruction) []string {
+	fp := &fingerprinter{short: true, f: in.Parent(), pred: map[*ssa.BasicBlock]*ssa.BasicBlock{}, spill: map[*ssa.Alloc]ssa.Value{}}
+	// register spilled parameters
+	for _, b := range in.Parent().Blocks {
+		for _, i2 := range b.Instrs {
+			if st, ok := i2.(*ssa.Store); ok {
+				if _, isParam := st.Val.(*ssa.Parameter); isParam {
+					if al, ok := st.Addr.(*ssa.Alloc); ok && al.Comment == st.Val.Name() {
+						fp.spill[al] = st.Val
+					}
+				}
+			}
+		}
+	}
+	var out []string
+	for _, g := range Guards(in.Block()) {
+		out = append(out, fp.cond(g.Cond, g.True)...)
+	}
+	return sortedCopy(out)
+}
+
+// RenderValue renders a value in fingerprint normal form (phis are opaque).
+func RenderValue(f *ssa.Function, v ssa.Value) string {
+	fp := &fingerprinter{short: true, f: f, pred: map[*ssa.BasicBlock]*ssa.BasicBlock{}, spill: map[*ssa.Alloc]ssa.Value{}}
+	for _, b := range f.Blocks {
+		for _, i2 := range b.Instrs {
+			if st, ok := i2.(*ssa.Store); ok {
+				if _, isParam := st.Val.(*ssa.Parameter); isParam {
+					if al, ok := st.Addr.(*ssa.Alloc); ok && al.Comment == st.Val.Name() {
+						fp.spill[al] = st.Val
+					}
+				}
+			}
+		}
+	}
+	return fp.expr(v)
+}
+
+// Anchor is a call instruction of interest inside a function, named by its
+// callee and its ordinal among the calls of that callee in the function.
+type Anchor struct {
+	Callee  string
+	Ordinal int
+	Instr   ssa.Instruction
+	Args    []string
+	Atoms   []string
+}
+
+// Anchors lists the calls in f (in block/instruction order) with their
+// dominating atoms.
+func Anchors(f *ssa.Function) []Anchor {
+	var out []Anchor
+	count := map[string]int{}
+	for _, b := range f.Blocks {
+		for _, in := range b.Instrs {
+			ci, ok := in.(ssa.CallInstruction)
+			if !ok {
+				continue
+			}
+			name := StaticCalleeName(in)
+			if name == "" {
+				if bi, ok := ci.Common().Value.(*ssa.Builtin); ok {
+					name = "builtin." + bi.Name()
+				} else if ci.Common().IsInvoke() {
+					name = InvokeName(in)
+				} else {
+					name = "dynamic"
+				}
+			}
+			count[name]++
+			var args []string
+			for _, a := range ci.Common().Args {
+				args = append(args, RenderValue(f, a))
+			}
+			out = append(out, Anchor{Callee: name, Ordinal: count[name], Instr: in, Args: args, Atoms: DomAtoms(in)})
+		}
+	}
+	return out
 }
